@@ -332,6 +332,8 @@ class Value:
                         continue
                     if 1 <= self.value / den < 1000:
                         denominator = den
+                if denominator == 'auto':  # No suitable denominator found, for instance for zero values
+                    denominator = 1
         elif isinstance(denominator, str):
             dens = [den for den, symb in NETWORK_DENOMINATORS.items() if symb == denominator[:len(symb)] and len(symb)]
             if len(dens) > 1:
